@@ -486,8 +486,13 @@ func (c scase) runCode() (o outcome) {
 				gs[i] = guard(l)
 				args[i] = gs[i].arg()
 			}
+			sentinel := []*traits.ElectricMode_Segment{{Magnitude: -779}}
+			args[:len(ls)+1][len(ls)] = sentinel
 			o.segs = segmentpb.Sum(args...)
 			o.text = showPBSegs(o.segs)
+			if spare := args[:len(ls)+1][len(ls)]; len(spare) != 1 || spare[0] != sentinel[0] || sentinel[0].Magnitude != -779 {
+				o.mutated = "the spare capacity of the slice of lists was written to"
+			}
 			for i, g := range gs {
 				if m := g.changed(); m != "" {
 					o.mutated = fmt.Sprintf("list %d: %s", i, m)
@@ -594,11 +599,17 @@ func (c scase) runCode() (o outcome) {
 			o.mode = modepb.Sum(args...)
 			o.text = showPBMode(o.mode)
 			for i, g := range gs {
+				if args[i] != g.mode {
+					o.mutated = fmt.Sprintf("element %d of the argument slice was replaced", i)
+					break
+				}
 				if m := g.changed(); m != "" {
 					o.mutated = fmt.Sprintf("mode %d: %s", i, m)
 					break
 				}
 			}
+		case "shifts", "sums", "mcuts", "mshifts", "msums":
+			c.runShaped(&o)
 		default:
 			o.text = "!bad-op"
 		}
@@ -744,6 +755,8 @@ func (c scase) monitor(m *lib.Monitor, o outcome) {
 		return
 	}
 	switch c.Op {
+	case "shifts", "sums", "mcuts", "mshifts", "msums":
+		c.monitorShaped(m, o)
 	case "active", "mactive":
 		var l []sg
 		var d int64
@@ -830,6 +843,28 @@ func (c scase) monitor(m *lib.Monitor, o outcome) {
 			bad("wrong-index", name+" does not point at a non-zero-length segment of the largest magnitude",
 				fmt.Sprintf("an index >= %d of a counted segment with magnitude %d", from, best), strconv.Itoa(idx))
 		}
+		// the same answer read against the FUNCTION (C18_max_attained / C18_maxAfter_step_function): on a well-formed
+		// list (only the last segment length-less) the segment pointed at carries the largest value the step function
+		// takes at the instants from d on at which a segment is active; len(segments) iff there is no such instant
+		if wf, dd, ok := maxDomain(c, l); wf && ok {
+			var sup int64
+			any := false
+			for _, t := range samplePoints(append(breakpoints(l), dd)) {
+				if t < dd {
+					continue
+				}
+				if v, active, _ := stepAt(l, t); active && (!any || v > sup) {
+					sup, any = v, true
+				}
+			}
+			switch {
+			case !any && idx != len(l):
+				bad("wrong-maximum-of-function", name+" must return len(segments) when the step function has no active instant from d on", strconv.Itoa(len(l)), strconv.Itoa(idx))
+			case any && (idx < 0 || idx >= len(l) || l[idx].mag != sup):
+				bad("wrong-maximum-of-function", name+" does not point at the largest value the step function takes from d on",
+					fmt.Sprintf("a segment of magnitude %d", sup), strconv.Itoa(idx))
+			}
+		}
 		if c.Op == "max" {
 			want := int64(0)
 			if found {
@@ -852,9 +887,9 @@ func (c scase) monitor(m *lib.Monitor, o outcome) {
 		seg, shape, has := parseShaped(c.L)
 		scase{"cut", c.D, showSg(seg), c.B}.monitor(m, outcome{text: showPBSeg(o.before) + "|" + showPBSeg(o.after) + "|" + strconv.FormatBool(o.ok),
 			before: o.before, after: o.after, ok: o.ok})
-		// the shape: every part stands for the same consumption as the segment it was cut from. Recorded
-		// exception (C18_cut_shape_unbounded_before; outside the step function of magnitudes): the `before`
-		// part of a length-less segment is built without the segment's shape.
+		// the shape: every part stands for the same consumption as the segment it was cut from (the `before` part
+		// of a length-less segment included: it lost the segment's Fixed shape before fix: of round 5,
+		// signature C18/Cut/shape-lost-on-unbounded-before)
 		want := float32(seg.mag)
 		if has {
 			want = float32(shape)
@@ -864,13 +899,12 @@ func (c scase) monitor(m *lib.Monitor, o outcome) {
 			if part == nil {
 				continue
 			}
-			if i == 0 && seg.inf && d > 0 {
-				if consumption(part) != want {
-					m.Count("cuts/before-of-length-less-segment-loses-Fixed-shape (recorded, not a violation)")
-				}
-				continue
-			}
 			if got := consumption(part); got != want {
+				if i == 0 && seg.inf && d > 0 {
+					bad("shape-lost-on-unbounded-before", "the part Cut splits off the start of a length-less segment does not carry the segment's Fixed shape (every other part does)",
+						fmt.Sprint(want), fmt.Sprintf("%v (%s)", got, o.text))
+					break
+				}
 				bad("shape-changed", "a part returned by Cut stands for a different consumption (Fixed shape, else magnitude) than the segment",
 					fmt.Sprint(want), fmt.Sprintf("%v (%s)", got, o.text))
 				break
@@ -880,10 +914,14 @@ func (c scase) monitor(m *lib.Monitor, o outcome) {
 		s, d := parseSg(c.L), mustInt(c.D)
 		l := []sg{s}
 		if d < 0 {
-			if o.before != nil || o.after == nil || showPBSeg(o.after) != showSg(s) {
-				bad("negative-d", "Cut with negative d must return (nil, segment)", "nil|"+showSg(s), o.text)
+			if o.before != nil || o.after == nil || showPBSeg(o.after) != showSg(s) || !o.ok {
+				bad("negative-d", "Cut with negative d must return (nil, segment) and flag outside", "nil|"+showSg(s)+"|true", o.text)
 			}
 			return
+		}
+		// the flag (C18_cut_outside): raised exactly when d is not the start and the segment is not active at d
+		if _, active, _ := stepAt(l, d); o.ok != (d != 0 && !active) {
+			bad("outside-flag", "Cut must flag `outside` exactly when d is not 0 and the segment is not active at d", strconv.FormatBool(d != 0 && !active), o.text)
 		}
 		pts := []int64{0, d}
 		if !s.inf {
@@ -969,6 +1007,10 @@ func (c scase) monitor(m *lib.Monitor, o outcome) {
 		}
 		if len(mode.segs) == 0 {
 			return // documented special case (mode, mode, true); the function is 0 everywhere
+		}
+		// the flag (C18_modes_cut_outside): raised exactly when t is not the start and no segment is active at t
+		if _, active, _ := stepAtOff(mode.segs, x, st); o.ok != (x != st && !active) {
+			bad("outside-flag", "modepb.Cut must flag `outside` exactly when t is not the mode's start and no segment is active at t", strconv.FormatBool(x != st && !active), o.text)
 		}
 		if !nearby(x, st) {
 			// the sampling below walks every ns between start and t; instants further apart are tied to the
@@ -1123,6 +1165,33 @@ func (c scase) monitor(m *lib.Monitor, o outcome) {
 			}
 		}
 	}
+}
+
+// maxDomain: whether l is well formed (only its last segment may be length-less) and the offset from which the
+// Max* operation of case c looks at the step function (false when that offset does not fit an int64).
+func maxDomain(c scase, l []sg) (wf bool, from int64, ok bool) {
+	for i, s := range l {
+		if s.inf && i != len(l)-1 {
+			return false, 0, true
+		}
+	}
+	switch c.Op {
+	case "maxafter":
+		if d := mustInt(c.D); d > 0 {
+			from = d
+		}
+	case "mmaxafter":
+		if mode := parseMd(c.L); mode.hasStart {
+			d, fits := subOK(mustInt(c.D), mode.start)
+			if !fits {
+				return true, 0, false
+			}
+			if d > 0 {
+				from = d
+			}
+		}
+	}
+	return true, from, true
 }
 
 // far is the value of the pointwise sum of the lists "at infinity": the sum of the magnitudes of
@@ -1365,7 +1434,7 @@ func randEpoch(r *rand.Rand) string {
 }
 
 func randSegCase(r *rand.Rand) scase {
-	c := randSegCase0(r)
+	c := shapeUp(r, randSegCase0(r))
 	if strings.HasPrefix(c.Op, "m") && c.Op != "max" && c.Op != "magat" && c.Op != "maxafter" {
 		c.B = randEpoch(r)
 	}
@@ -1550,7 +1619,7 @@ func runSeg(f lib.Flags, res *lib.Result, drv *lib.Driver) {
 	// K2: exhaustive small domain
 	k2 := res.Tie("segments-exhaustive-small", "K2",
 		"all lists of <=3 segments over mag {-1,0,1,2} x len {0,1,2,absent}: Duration, Max, SumMagnitude on each; ActiveAt, MagnitudeAt, MaxAfter, Shift for every d in -1..total+1 (Shift also -d); "+
-			"Cut of every segment at d in -1..4, unshaped and with the shape oneof unset / Fixed 0 / 2 / -3; Sum of all ordered pairs of lists of <=2 segments (quick) / plus all triples of lists of <=1 segment and pairs (<=3, <=1) (thorough); "+
+			"Cut of every segment at d in -1..4, unshaped and with the shape oneof unset / Fixed 0 / 2 / -3; Sum of all ordered pairs of lists of <=2 segments and all triples of lists of <=1 segment (quick) / plus pairs (<=3, <=1) (thorough); Shift, modepb.Cut, modepb.Shift on every list of <=2 segments under three shape patterns (all unset, all Fixed 3, alternating Fixed 0 / unset) with and without non-timing fields, Sum / modepb.Sum of all pairs of shaped lists of <=1 segment; "+
 			"modepb read/Cut/Shift on lists of <=2 segments x start in {absent,0,2} x t in -1..total+3 (d in -3..3), modepb.Sum of all pairs of lists of <=1 segment and all triples over {e, 1/1, 2/i}, each x starts {absent,0,2}, modepb.MinAt of all pairs of lists of <=1 segment x t in -1..4 (the returned mode is compared only when the minimum is unique: it depends on map iteration order otherwise); the mode families again (lists of <=1 segment for read/Cut/Shift; thorough: <=2, plus denormalised start-time protos) with model time 0 placed on the zero time.Time and on the Unix epoch (start and query times at, before and after those instants); distinct = distinct request line + epoch; non-trivial = some list non-empty")
 	k2.Exhaustive = true
 	var cases []scase
@@ -1589,20 +1658,21 @@ func runSeg(f lib.Flags, res *lib.Result, drv *lib.Driver) {
 			cases = append(cases, scase{"sum", "", showSgLists([][]sg{a, b}), ""})
 		}
 	}
-	if f.Thorough() {
-		for _, a := range l1 {
-			for _, b := range l1 {
-				for _, c := range l1 {
-					cases = append(cases, scase{"sum", "", showSgLists([][]sg{a, b, c}), ""})
-				}
+	for _, a := range l1 {
+		for _, b := range l1 {
+			for _, c := range l1 {
+				cases = append(cases, scase{"sum", "", showSgLists([][]sg{a, b, c}), ""})
 			}
 		}
+	}
+	if f.Thorough() {
 		for _, a := range l3 {
 			for _, b := range l1 {
 				cases = append(cases, scase{"sum", "", showSgLists([][]sg{a, b}), ""}, scase{"sum", "", showSgLists([][]sg{b, a}), ""})
 			}
 		}
 	}
+	cases = append(cases, shapedCases(l2, l1)...)
 	starts := []md{{}, {hasStart: true, start: 0}, {hasStart: true, start: 2}}
 	tiny := [][]sg{nil, {{mag: 1, len: 1}}, {{mag: 2, inf: true}}}
 	// the mode operations, for one epoch family: the reading operations, Cut and Shift on `lists`, Sum of
@@ -1671,7 +1741,7 @@ func runSeg(f lib.Flags, res *lib.Result, drv *lib.Driver) {
 	// K1: the property's random domain
 	k1 := res.Tie("segments-random", "K1",
 		"random lists of 0-6 segments (magnitudes -3..4 with extra zeros, lengths 0..5, a final length-less segment in 1/3 of the lists, rarely one in the middle), "+
-			"1-4 lists per Sum (rarely 0), d/t at a breakpoint or one ns either side (negated half the time for Shift), Cut also on segments carrying the shape oneof (unset or Fixed -4..4), modes with (3/4) and without start times, 1-4 modes per modepb.Sum, model time 0 of a mode case on an ordinary instant (6/10), the zero time.Time (1/5), the Unix epoch (1/10) or an ordinary instant with denormalised start-time protos {seconds+1, nanos-1e9} (1/10); "+
+			"1-4 lists per Sum (rarely 0), d/t at a breakpoint or one ns either side (negated half the time for Shift), Cut also on segments carrying the shape oneof (unset or Fixed -4..4), a third of the Shift / Sum / modepb.Cut / modepb.Shift / modepb.Sum cases on segments carrying the shape oneof (and modes carrying non-timing fields, token 1..6), modes with (3/4) and without start times, 1-4 modes per modepb.Sum, model time 0 of a mode case on an ordinary instant (6/10), the zero time.Time (1/5), the Unix epoch (1/10) or an ordinary instant with denormalised start-time protos {seconds+1, nanos-1e9} (1/10); "+
 			"distinct = distinct request line + epoch; non-trivial = some list non-empty")
 	r := lib.NewRand(f.Seed + 18)
 	n := f.N(60000, 1500000)
